@@ -36,8 +36,8 @@ CHECKS = {
         text='For each substituted builtin and each call shape Python accepts (positional / documented keywords / optional parameters present or absent) z3 decides equal outcome (value, NaN-aware; exception type; for lazy results equal items and equal laziness measured with a counting iterable) for all int/float/bool values, str of length<=2, int lists of length<=4.',
         note='Bounds: str len<=2 (int/float parsing is slow in z3; inconclusive harnesses are reported, not claimed), lists<=4, range args within +-5. Trusted: CrossHair float/str models.'),
     'C16': dict(
-        level='exploration', engine='xh-diff', design='DESIGN.md §2 C16',
-        technique='CrossHair (z3) on one inductive step of each real status wrapper from an arbitrary symbolic thread-local stack; CrossHair differential on converted programs with probes; thread isolation by z3 BMC over schedules (E3)',
+        level='model_checking', engine='py2smt-bmc', design='DESIGN.md §2 C16',
+        technique='z3 bounded model checking (QF_BV) over all schedules of 2-3 threads through the steps extracted from the real ag_ctx AST; CrossHair (z3) on one inductive step of each real status wrapper from an arbitrary symbolic stack; CrossHair differential on converted programs with probes',
         text='Inductive step: from an arbitrary valid stack (depth 1..4, arbitrary statuses) one real wrapper (ControlStatusCtx block, FunctionScope, with_function_scope, do_not_convert, call_with_unspecified_conversion_status, convert().wrapper, internal_convert) is entered and left around a body that returns or raises: the stack is element-wise identical afterwards and the status inside is as promised. Generated code: status identity before/after converted calls whose callees raise at symbolic points.',
         note='STUB: converted_call replaced by a direct call inside convert()/internal_convert() harnesses. Induction hypothesis: callee leaves the stack as found.'),
     'C20': dict(
@@ -56,10 +56,10 @@ CHECKS = {
         text='Transparency: obs(converted_call(f,args,kwargs)) == obs(f(*args,**kwargs)) for 29 callable kinds x call shapes, all int values. Policy: conversion attempted iff the documented decision table says so, for all 8 option values x 3 context statuses per kind. Fall-back: for each of 20 pipeline stages x 7 exception classes the call still returns the direct result, the target runs once, exactly one warning is logged, the failure is remembered and the second call enters no stage.',
         note='Decision table transcribed from functions.md. Faults are exceptions raised by patched module-level stage entry points. wrapt/TF plugins outside.'),
     'C10': dict(
-        level='exploration', engine='xh-diff', design='DESIGN.md §2 C10',
-        technique='CrossHair (z3) solver-exhausted enumeration of request histories against the real transpiler cache (real locking, parsing, factory creation, instantiate; counting stub for transform_ast)',
+        level='model_checking', engine='py2smt-bmc', design='DESIGN.md §2 C10',
+        technique='z3 bounded model checking (QF_BV) over all thread schedules of the step list extracted from the real transform_function/cache AST, counterexample schedules replayed on real threads; CrossHair (z3) solver-exhausted enumeration of request histories against the real transpiler cache',
         text='Every history of H<=3 (thorough 4) requests (function, options) over a pool with shared code objects / same-named definitions / re-created functions x 4 option sets: each returned function equals a cache-less fresh conversion of exactly that function object under exactly those options (behaviour, defaults/globals/cells identity, generated source), and the source transformation ran at most once per (code, options).',
-        note='STUB: transform_ast is a counting stub embedding (name, options) into the output. Thread schedules: E3 model (see DESIGN) - until it is part of the run the thread-safety clause is not claimed.'),
+        note='Schedules: 2 threads with symbolic requests (quick), 3 threads same request with a 15 min cap (thorough; cap hit = inconclusive). Steps are atomic at the granularity of one dict/lock/attribute operation; stubs listed in evidence. Histories: transform_ast is a counting stub. Weak-reference collection concurrent with a lookup is outside.'),
     'C05': dict(
         level='exploration', engine='xh-path', design='DESIGN.md §2 C05',
         technique='CrossHair (z3) enumerates every branch-decision vector (<=K opaque booleans) of an instrumented copy of each enumerated program executed by CPython; the recorded statement trace must be a path of the graph built by the real cfg.build',
